@@ -208,7 +208,7 @@ Proof. destruct q; cbn; try reflexivity. destruct k; discriminate. Qed.
 
 (* ---------- case analysis on one step ---------- *)
 Ltac break_step H :=
-  unfold step in H;
+  unfold step, serving, idle_ph in H;
   repeat match type of H with
   | context [match ?x with _ => _ end] => destruct x eqn:?
   end; try discriminate; inversion H; subst; clear H.
